@@ -69,8 +69,16 @@ EXPLANATION = (
     'routing the driver executes, on every input).  Tie: streams partmeshb_c20 (np 1,2,3: index 0, -1, nnode+1, nnode+2, '
     '2^31-1, 2^32+1 in first / later position of tet / tri / edge records, counts, truncation, dimension / version / '
     'next-position substitutions, bit flips; C status and, when accepted, the per-rank dump == model) and partmeshb_read '
-    '(np 1..5, valid files).  The two *_counterexample theorems of that file are Lean witnesses of findings/partmeshb-'
-    'count-2pow32-hang and findings/partmeshb-count-int-overflow (declared counts are trusted to size the read buffers).  '
+    '(np 1..5, valid files).  Declared counts (reader of /repo since 4474557, ref_part_meshb_count_fits modelled as '
+    'countFits right after the count is read, on rank 0): partCell_count_fits (accepted => every declared cell / '
+    'geometry count is in [0, INT_MAX] and <= bytes left / 4), partCell_loop_progress (chunk >= 1, section_size >= 1 '
+    'while records remain, and parseWith Cfg.current never returns the model\'s diverge: the read loops return on '
+    'every byte string), partCell_no_int_overflow (size_per*chunk and (node_per+1)*chunk stay below 2^31 for files of '
+    'at most 306783376 bytes per rank).  The two *_counterexample theorems keep the history: the legacy reader '
+    '(parseCellsLegacy) diverges / overflows on the witness files of findings/partmeshb-count-2pow32-hang and '
+    'findings/partmeshb-count-int-overflow, the reader of today refuses them with REF_FAILURE on 1, 2, 3 ranks; '
+    'the stream generates counts 2^31-1, 2^32, 2^32+k, -1, one above what the file holds at np 1,2,3 and replays '
+    'the four witness files.  '
     'TEXT MESH READERS, .r8.ugrid, FIELD READERS, MAPBC (work package formats; Refine/Model/Formats.lean, FormatsBin.lean, '
     'FormatsMapbc.lean, Props/C20Formats.lean; harness h_formats = every call in a forked child with alarm, allocator cap and '
     'peak-RSS check; driver formats): the validation logic of ref_import_ugrid (ASCII), _tri, _surf, _fgrid, _su2, _msh, '
@@ -114,9 +122,10 @@ ASSUMPTIONS = [
     'parallel meshb reader: when rank 0 returns an error from a rank-0-only section the other ranks are blocked in a '
     'receive; the harness then prints the status and calls MPI_Abort (what a refmpi main does by returning without '
     'MPI_Finalize) - "rejected cleanly" means: non-zero status on rank 0, no sanitizer report, no timeout',
-    'parallel meshb reader: declared cell / geometry / byte counts above 1.2e6 are kept out of the generated mutants '
-    '(they size buffers: int overflow of size_per*chunk, endless loop for a count of 2^32 - see findings/partmeshb-*; '
-    'the model returns `ub` / `hang` on them); ref_grid_inward_boundary_orientation, which runs after the reader '
+    'parallel meshb reader: only a CAD byte count (keyword 126) outside [0, 2^30] is kept out of the generated '
+    'mutants (it sizes one malloc; the model returns REF_NULL above its allocator cap of 2^30, the real malloc succeeds '
+    'lazily); cell and geometry counts are mutated freely since /repo 4474557; the vertex count is not checked by '
+    'the C (rank 0 reads until the file ends); ref_grid_inward_boundary_orientation, which runs after the reader '
     'inside ref_part_meshb, is outside the model (the harness dumps the state just before it, by interposing that one '
     'call in the white-box include of ref_part.c)',
 ]
